@@ -4,7 +4,16 @@
 #include "world.hpp"
 #include <openssl/err.h>
 
-static const char *EC_CRV[] = {"P-256", "P-384", "P-521", "secp256k1"};
+// the last two: curves no ES algorithm admits (512 bits is not P-521's 521; 224 bits fits nothing) - importable, never usable
+static const char *EC_CRV[] = {"P-256", "P-384", "P-521", "secp256k1", "brainpoolP512r1", "secp224r1"};
+static const int N_EC_CRV = 6;
+static int crv_idx(const std::string &crv)
+{
+	for (int i = 0; i < N_EC_CRV; i++)
+		if (crv == EC_CRV[i])
+			return i;
+	return 3;
+}
 static const char *OKP_CRV[] = {"Ed25519", "Ed448"};
 static const char *UNKNOWN_ALGS[] = {"HS999", "rs256", "none ", "", "RSA-OAEP", "A128KW"};
 static const char *KEY_OPS[] = {"sign", "verify", "encrypt", "decrypt", "wrapKey", "unwrapKey", "deriveKey", "deriveBits"};
@@ -18,7 +27,7 @@ static std::vector<int> natural_algs(int kind, int size)
 	case 1:
 		return {JWT_ALG_RS256, JWT_ALG_RS384, JWT_ALG_RS512, JWT_ALG_PS256, JWT_ALG_PS384, JWT_ALG_PS512};
 	case 2:
-		return {size == 0 ? JWT_ALG_ES256 : size == 1 ? JWT_ALG_ES384 : size == 2 ? JWT_ALG_ES512 : JWT_ALG_ES256K};
+		return {size == 0 ? JWT_ALG_ES256 : size == 1 ? JWT_ALG_ES384 : size == 2 || size == 4 ? JWT_ALG_ES512 : size == 5 ? JWT_ALG_ES256 : JWT_ALG_ES256K};
 	default:
 		return {JWT_ALG_EDDSA};
 	}
@@ -64,6 +73,8 @@ static Step gen_owner(Rng &r, const std::string &bias, int force_kind = -1)
 		// P-521 more often where signatures are the subject: its 66-octet coordinates make short r/s
 		// values (sign-side padding paths) two hundred times more frequent than on the other curves
 		size = (bias == "C05" || bias == "C12" || bias == "C06" || bias == "C01") ? (int)r.pick(std::vector<int>{0, 1, 2, 2, 2, 3}) : (int)r.range(0, 3);
+		if (weak_bias && r.chance(1, 4))
+			size = (int)r.range(4, 5);
 		break;
 	default:
 		size = (int)r.range(0, 1);
@@ -124,7 +135,8 @@ static void world_gen(Rng &r, Plan &p, Tier tier, uint64_t index)
 	// run (thread-local library state - error queues, per-thread caches - carries over between steps);
 	// allocator hands freed blocks straight back (address reuse) or leaves them to ASan's quarantine
 	p.cfg["one_thread"] = Val((int64_t)(r.chance(1, 2) ? 1 : 0));
-	p.cfg["reuse"] = Val((int64_t)(r.chance(1, 3) ? 1 : 0));
+	// (address reuse matters most where thread-local state survives from step to step: half of the one-thread runs)
+	p.cfg["reuse"] = Val((int64_t)(r.chance(1, p.C("one_thread") ? 2 : 4) ? 1 : 0));
 	uint64_t uid = 1;
 	// allocation failures inside the operations of the world (a per-run knob): the k-th request of the installed
 	// allocator during one verify / generate / key import returns NULL (sometimes every request from the k-th on)
@@ -297,7 +309,7 @@ static void world_gen(Rng &r, Plan &p, Tier tier, uint64_t index)
 			Step o = gen_owner(r, bias);
 			o.set("late", 1);
 			push(o);
-		} else if (roll < 33 && bias != "C05" && bias != "C08") {
+		} else if (roll < (bias == "C01" || bias == "C12" || bias == "C13" ? 35 : 33) && bias != "C05" && bias != "C08") {
 			// the owner retires its key: key sets freed, a new key of the same kind loaded, the verifiers
 			// that held the old key re-pointed to the new one; old tokens stay in the pool and come back
 			Step s("ROTATE");
@@ -332,7 +344,7 @@ static void world_gen(Rng &r, Plan &p, Tier tier, uint64_t index)
 			if (weaken)
 				tailored();
 			// late replay: a token signed with the retired key goes to a verifier that now holds the new one
-			int nrep = (int)r.range(0, 2);
+			int nrep = (int)r.range(bias == "C01" || bias == "C12" ? 1 : 0, 3);
 			for (int k = 0; k < nrep; k++) {
 				Step d("DELIVER");
 				d.set("token", (int64_t)r.below(64));
@@ -373,6 +385,8 @@ static void world_gen(Rng &r, Plan &p, Tier tier, uint64_t index)
 			s.set("to", (int64_t)r.below((uint64_t)n_ver));
 			if (r.chance(1, 2))
 				s.set("cbpassive", 1); // a verifier with a selective callback: for this token the callback only looks
+			if (r.chance(1, 3))
+				s.set("noclear", 1); // a rejection is not followed by jwt_checker_error_clear
 			if (r.chance(3, 4))
 				s.set("match", 1); // route to a verifier that holds the issuing owner's key when one exists
 			if ((int)r.below(100) < fprob) {
@@ -392,6 +406,7 @@ struct Owner {
 	LoadedKey priv, pub;
 	bool ok = false;
 	bool broken = false; // the published documents are defective on purpose: items exist but are flagged
+	bool exotic = false; // a curve outside the four the properties name: whether it imports is not judged, that it never signs or verifies is
 	int key_alg = JWT_ALG_NONE; // what the JWK's alg attribute denotes (NONE absent, INVAL unknown)
 	int kind = 0;
 };
@@ -468,7 +483,7 @@ static int choose_explicit(const Step &s, const Owner *o)
 		return ex; // literal enum value, including 15 = INVAL
 	uint64_t sel = (uint64_t)s.I("exsel");
 	if (ex == -1 && o) {
-		std::vector<int> nat = natural_algs(o->kind, o->truth->kty == K_EC ? (o->truth->crv == "P-256" ? 0 : o->truth->crv == "P-384" ? 1 : o->truth->crv == "P-521" ? 2 : 3) : 0);
+		std::vector<int> nat = natural_algs(o->kind, o->truth->kty == K_EC ? crv_idx(o->truth->crv) : 0);
 		if (o->key_alg > JWT_ALG_NONE && o->key_alg < JWT_ALG_INVAL && sel % 3)
 			return o->key_alg;
 		return nat[sel % nat.size()];
@@ -602,7 +617,8 @@ static Owner make_owner(World &w, const Step &s, uint64_t salt)
 		o.truth = key_rsa_pool(RSA_POOL_BITS[((size % N_RSA_POOL_BITS) + N_RSA_POOL_BITS) % N_RSA_POOL_BITS], (int)s.I("idx"));
 		break;
 	case 2:
-		o.truth = key_gen_ec(EC_CRV[((size % 4) + 4) % 4]);
+		o.truth = key_gen_ec(EC_CRV[((size % N_EC_CRV) + N_EC_CRV) % N_EC_CRV]);
+		o.exotic = ((size % N_EC_CRV) + N_EC_CRV) % N_EC_CRV >= 4;
 		break;
 	default:
 		o.truth = key_gen_okp(OKP_CRV[((size % 2) + 2) % 2]);
@@ -766,7 +782,7 @@ static Owner make_owner(World &w, const Step &s, uint64_t salt)
 	if (opts.ec_minimal && o.kind == 2)
 		ctx.count("probe:jwk_ec_minimal_length_coordinates");
 	// the empty oct key is outside C08's quantifier (1-512 bytes); libjwt refuses it
-	bool in_domain = !(o.kind == 0 && o.truth->oct.empty()) && !o.broken;
+	bool in_domain = !(o.kind == 0 && o.truth->oct.empty()) && !o.broken && !o.exotic;
 	if (o.broken) {
 		ctx.count("fault:owner_publishes_broken_key_document");
 		if (okp || oku)
@@ -1469,7 +1485,7 @@ static void do_refissue(World &w, const Step &s)
 		m.unsigned_tok = true;
 		m.alg = JWT_ALG_NONE;
 	} else {
-		std::vector<int> nat = natural_algs(o.kind, o.truth->kty == K_EC ? (o.truth->crv == "P-256" ? 0 : o.truth->crv == "P-384" ? 1 : o.truth->crv == "P-521" ? 2 : 3) : 0);
+		std::vector<int> nat = natural_algs(o.kind, o.truth->kty == K_EC ? crv_idx(o.truth->crv) : 0);
 		int a = nat[(uint64_t)s.I("algsel") % nat.size()];
 		if (o.key_alg > JWT_ALG_NONE && o.key_alg < JWT_ALG_INVAL && key_family_ok(*o.truth, ALGS[o.key_alg]) && (s.I("algsel") & 8) == 0)
 			a = o.key_alg;
@@ -1491,7 +1507,7 @@ static void do_refissue(World &w, const Step &s)
 
 // ---------------------------------------------------------------- DELIVER / GARBAGE
 static void judge_delivery(World &w, Party &v, int vi, const std::string &tok, const Msg *src, bool pristine, bool destroys, bool encoding_level,
-			   const std::string &faults_in, int64_t fail_at = 0, bool fail_from = false, bool cb_acts = true)
+			   const std::string &faults_in, int64_t fail_at = 0, bool fail_from = false, bool cb_acts = true, bool noclear = false)
 {
 	Ctx &ctx = w.ctx;
 	set_provider(v.prov);
@@ -1572,6 +1588,10 @@ static void judge_delivery(World &w, Party &v, int vi, const std::string &tok, c
 		if (malformed)
 			ctx.violation("C06", "malformed-accepted", !tp.has2 ? "no-two-dots" : !tp.hdr_ok ? "header-not-json-object" : !tp.alg_is_string ? "alg-not-string" : !ha ? "alg-unknown" : "payload-not-json",
 				      strf("accepted a string the reference finds malformed: %s", show(tok, 300).c_str()));
+		// ... and so is a first or second part whose length is 1 modulo 4: no base64 text has that length
+		if (tp.has2 && (tp.seg[0].size() % 4 == 1 || tp.seg[1].size() % 4 == 1))
+			ctx.violation("C06", "malformed-accepted", "segment-length-1-mod-4",
+				      strf("accepted a token whose %s part has a length of 1 modulo 4 (not the length of any base64 text): %s", tp.seg[0].size() % 4 == 1 ? "first" : "second", show(tok, 300).c_str()));
 		if (v.reject_all)
 			ctx.violation("C19", "cb-error-accepted", "route5", "callback returned non-zero but verification succeeded");
 		if (v.has_key || v.eff_explicit != JWT_ALG_NONE) {
@@ -1591,6 +1611,9 @@ static void judge_delivery(World &w, Party &v, int vi, const std::string &tok, c
 						   alg_name(v.eff_explicit), k ? k->label.c_str() : "?", alg_name(v.key_alg), hdralg.c_str(), show(tok, 300).c_str()));
 			// C02 family / C09 floor
 			if (k && ha && ha->fam != FAM_NONE) {
+				if (ha->fam == FAM_ED && k->kty != K_OKP)
+					ctx.violation("C09", "verify-below-floor", strf("EdDSA:%s", k->label.c_str()),
+						      strf("verification with EdDSA succeeded with key %s, which is neither Ed25519 nor Ed448", k->label.c_str()));
 				if (!key_family_ok(*k, *ha))
 					ctx.violation("C02", "family", strf("%s-with-%s", ha->name, kty.c_str()),
 						      strf("%s evaluated with a key of another family (%s) and accepted: %s", ha->name, k->label.c_str(), show(tok, 300).c_str()));
@@ -1666,8 +1689,11 @@ static void judge_delivery(World &w, Party &v, int vi, const std::string &tok, c
 		} else
 			ctx.count("probe:c12_encoding_level_fault_not_compared");
 	}
-	if (!acc)
+	// most applications clear a checker's error after a rejection; some just go on with the next token
+	if (!acc && !noclear)
 		jwt_checker_error_clear(v.chk);
+	else if (!acc)
+		ctx.count("probe:rejection_left_uncleared_on_the_checker");
 }
 
 static void do_deliver(World &w, const Step &s, bool garbage)
@@ -1750,7 +1776,7 @@ static void do_deliver(World &w, const Step &s, bool garbage)
 				// EdDSA for OKP, HS256 for oct) under a header that names whatever the verifier pinned
 				if (vk) {
 					int kind = vk->kty == K_OCT ? 0 : vk->kty == K_RSA ? 1 : vk->kty == K_EC ? 2 : 3;
-					std::vector<int> nat = natural_algs(kind, vk->crv == "P-256" ? 0 : vk->crv == "P-384" ? 1 : vk->crv == "P-521" ? 2 : 3);
+					std::vector<int> nat = natural_algs(kind, crv_idx(vk->crv));
 					if (ref_sign(*vk, ALGS[nat[r.below(nat.size())]], si, sig))
 						return true;
 				}
@@ -1826,7 +1852,7 @@ static void do_deliver(World &w, const Step &s, bool garbage)
 		if (tp.has2 && b64_decode_lenient(tp.seg[2], sg) && sg.size() == 2 * w2 && (sg[0] & 0x80) && (sg[w2] & 0x80))
 			ctx.count(strf("probe:ec_signature_with_longest_der_encoding_delivered:%s:%s", vk->crv.c_str(), prov_name(v.prov)));
 	}
-	judge_delivery(w, v, vi, tok, src, pristine, destroys, enc, faults, s.I("failalloc"), s.I("failfrom") != 0, s.I("cbpassive") == 0);
+	judge_delivery(w, v, vi, tok, src, pristine, destroys, enc, faults, s.I("failalloc"), s.I("failfrom") != 0, s.I("cbpassive") == 0, s.I("noclear") != 0);
 }
 
 // ---------------------------------------------------------------- executor
